@@ -26,8 +26,12 @@ def run_e2(prog, res, cfg, reachable):
         if f.component == "test" or f.cfg is None or any(f.file.endswith(x) for x in cfg["exclude_files"]):
             continue
         fb = bufbound.FnBuf(prog, f, ident, cfg.get("input_fns"), summaries={}, path_fns=cfg.get("path_fns"))
+        fb.param_is_ident = f.component in cfg.get("param_is_ident_components", ())
         sites = fb.analyse()
         for s in sites:
+            if s["kind"] == "summary" and s["need"][0] == "unbounded" and len(s["need"]) == 1 and fb.param_is_ident and \
+                    f.name not in cfg.get("unbounded_writers", ()):
+                s["need"] = ("unbounded", "ident", "a name built by %s" % f.name)
             if s["kind"] == "summary":
                 summaries.setdefault(f.key, [])
                 if (s["pidx"], s["need"]) not in summaries[f.key]:
@@ -52,6 +56,8 @@ def run_e2(prog, res, cfg, reachable):
         nfun += 1
         fb = bufbound.FnBuf(prog, f, ident, cfg.get("input_fns"), summaries=summaries, path_fns=cfg.get("path_fns"))
         fb.path_params = cfg.get("path_params", set())
+        fb.param_is_ident = f.component in cfg.get("param_is_ident_components", ())
+        fb.param_ident = cfg.get("param_ident", set())
         sites = fb.analyse()
         on_path = f.key in reachable
         for s in sites:
@@ -60,6 +66,9 @@ def run_e2(prog, res, cfg, reachable):
                 continue
             if not on_path:
                 unreachable_sites += 1
+                continue
+            if s["kind"] == "ptr" and not cfg.get("heap_sites", True):
+                n_sites["heap_not_decided"] = n_sites.get("heap_not_decided", 0) + 1
                 continue
             n_sites[s["kind"]] = n_sites.get(s["kind"], 0) + 1
             base = "E2|%s|%s|%s->%s" % (f.relfile(), f.name, s["what"].split(" ")[0] if s["kind"] != "index" else "store", s["buf"])
@@ -117,6 +126,45 @@ def run_e3(prog, res, cfg, reachable):
                     % (s["stream"].split(":")[-1], modetxt, [l for l in s["witness"] if l]),
                     {"extractions": s["extractions"]})
     res.info["e3_loops"] = n
+    return n
+
+
+def run_e3b(prog, res, cfg, reachable):
+    """E3b progress: loops that look at the next character consume at least one character per iteration"""
+    cons = stuckstream.consumer_functions(prog)
+    pg = stuckstream.Progress(prog, cons)
+    n = 0
+    counters = {}
+    for f in prog.all_functions():
+        if f.component == "test" or f.cfg is None or any(f.file.endswith(x) for x in cfg["exclude_files"]):
+            continue
+        if f.key not in reachable:
+            continue
+        for s in pg.check_loops(f):
+            n += 1
+            base = "E3b|%s|%s|lookahead-loop" % (f.relfile(), f.name)
+            c = counters.get(base, 0)
+            counters[base] = c + 1
+            key = base if c == 0 else "%s#%d" % (base, c)
+            if s["ok"] is None:
+                res.broke("E3b: state explosion in %s loop at line %s" % (f.name, s["line"]))
+                continue
+            exc = cfg.get("e3b_exceptions", {}).get(key)
+            if not s["ok"] and exc:
+                reason = exc["reason"] if isinstance(exc, dict) else exc
+                only = set(exc.get("only_lookahead", ())) if isinstance(exc, dict) else None
+                got = {w["lookahead"] for w in s["witness_all"]}
+                if only is None or got <= only:
+                    res.add("E3b.progress", key, "%s:%s" % (f.relfile(), s["line"]), True, "accepted: %s" % reason, assume=reason)
+                    continue
+                s["witness"] = [w for w in s["witness_all"] if w["lookahead"] not in only][:3]
+            res.add("E3b.progress", key, "%s:%s" % (f.relfile(), s["line"]), s["ok"],
+                    "every iteration that returns to the loop head has consumed at least one character (for each of the "
+                    "look-ahead characters the loop and its consumers distinguish)" if s["ok"] else
+                    "with next character %s an iteration returns to the loop head without consuming it: the loop sees the same "
+                    "character again (livelock on well-formed-looking input)" % ", ".join(repr(w["lookahead"]) for w in s["witness"]),
+                    {"undecided_paths": s.get("undecided_paths")})
+    res.info["e3b_loops"] = n
     return n
 
 
